@@ -32,6 +32,10 @@ LEMMAS = {
     "lemma_L_DISC": ("L-DISC", ["C11"]),
     "lemma_L_COUNT": ("L-COUNT", ["C12"]),
     "lemma_mutex_step": ("L-MUTEX", ["C17"]),
+    # whole-history induction over all finite sequences of reference steps
+    "lemma_hstep_preserves": ("H-STEP", ["C01", "C02", "C03", "C08", "C10"]),
+    "lemma_H_INV": ("H-INV", ["C01", "C02", "C03", "C08", "C10"]),
+    "lemma_cap_constant": ("H-CAP", ["C08"]),
     # glue U2 (proved) ==> U1 (assumed), contracts/glue_u1_u2.rs
     "lemma_glue_poll": ("GLUE.poll", ["C16", "C04", "C15", "C01", "C08", "C10", "C11"]),
     "lemma_glue_async_blocking_wait": ("GLUE.async_blocking_wait", ["C15", "C16", "C04", "C01", "C10", "C11"]),
